@@ -167,9 +167,10 @@ def run_plan(plan):
         raise Inconclusive("seam_missing_components_builder")
       B = bo.basis
       norms = np.linalg.norm(B, axis=1)
-      if gp.get("n_basis") is not None and B.shape[0] != gp["n_basis"]:
+      nb_given = plan["params"].get("n_basis")        # as the caller passed it
+      if nb_given is not None and B.shape[0] != nb_given:
         raise Violation("generated_basis", "cls=%s,rows" % cls,
-                        "generated basis has %d rows, n_basis=%r" % (B.shape[0], gp["n_basis"]))
+                        "generated basis has %d rows, n_basis=%r" % (B.shape[0], nb_given))
       if B.shape[1] != d or np.abs(norms - 1.0).max() > 1e-8:
         raise Violation("generated_basis", "cls=%s,unit_norm" % cls,
                         "generated basis rows are not unit norm: %r" % np.round(norms, 6).tolist()[:8])
